@@ -122,6 +122,7 @@ const Canon & canonical(const GenCfg & cfg, const Op & shoot)
   // the reference has a *different* history than the instance under test, which is all the oracle needs.
   bool expensive = false;
   if (cfg.cat == 1 && cfg.mode < 21) for (auto & e : dbd_catalogue()) if (e.nuc == cfg.nuc && e.level == cfg.level && e.mode == cfg.mode) { expensive = e.qng_calls > 0; break; }
+  static std::map<std::string, std::unique_ptr<SimRandom>> pool_rng; // init-time sources of the pooled instances (alive with them; declared first)
   static std::map<std::string, std::unique_ptr<bxdecay0::decay0_generator>> pool;
   static std::map<std::string, std::string> pool_err;
   try {
@@ -130,12 +131,14 @@ const Canon & canonical(const GenCfg & cfg, const Op & shoot)
     if (expensive) {
       auto pi = pool.find(cfg.key());
       if (pi == pool.end()) {
-        if (pool.size() > 48) { pool.clear(); pool_err.clear(); }
+        if (pool.size() > 48) { pool.clear(); pool_rng.clear(); pool_err.clear(); }
         std::unique_ptr<bxdecay0::decay0_generator> ng(new bxdecay0::decay0_generator);
         apply_cfg(*ng, cfg);
-        SimRandom ri(hmix(hstr("canon-init"), hstr(cfg.key())));
+        auto & rip = pool_rng[cfg.key()]; rip.reset(new SimRandom(hmix(hstr("canon-init"), hstr(cfg.key()))));
+        SimRandom & ri = *rip;
         ri.begin_op(INIT_BUDGET);
         ng->initialize(ri);
+        ri.begin_op(1000000);
         pi = pool.emplace(cfg.key(), std::move(ng)).first;
       }
       gp = pi->second.get();
@@ -274,6 +277,9 @@ struct RefServer
 
 struct Inst
 {
+  // the deviate source handed to initialize(): an object of its own that stays alive as long as the generator (an
+  // application's engine does); shoot() gets another object. Declared first: destroyed after the generator
+  std::unique_ptr<SimRandom> init_rng;
   std::unique_ptr<bxdecay0::decay0_generator> gen;
   GenCfg cfg;
   bool has_cfg = false;
@@ -360,7 +366,8 @@ Outcome run_gen(const Plan & plan, const RunCtx & ctx)
       tr.adds("recfg"); tr.adds(I.cfg.key());
     } else if (op.k == "init") {
       if (!I.gen || !I.has_cfg || I.inited) { out.ctr["ops_skipped"]++; continue; }
-      SimRandom r(init_key(op.arg(1)));
+      I.init_rng.reset(new SimRandom(init_key(op.arg(1))));
+      SimRandom & r = *I.init_rng;
       r.begin_op(INIT_BUDGET);
       r.cancel_at = op.arg(2, -1);
       std::string err; bool afired = false;
@@ -368,6 +375,7 @@ Outcome run_gen(const Plan & plan, const RunCtx & ctx)
       if (afired) out.ctr["fault_alloc_fail_fired"]++;
       if (r.cancelled) out.ctr["fault_cancel_in_init_fired"]++;
       bool faulted = r.cancelled || afired || r.over_budget;
+      const bool init_over_budget = r.over_budget; const u64 init_draws = r.op_draws();
       I.inited = I.gen->is_initialized();
       tr.adds("init"); tr.add(ok); tr.add(r.op_draws());
       I.last = ok ? "init" : (faulted ? "init-faulted" : "init-refused");
@@ -391,15 +399,19 @@ Outcome run_gen(const Plan & plan, const RunCtx & ctx)
       }
       if (ok && plan.hint("off_catalogue", 0)) out.ctr["probe_off_catalogue_configuration_accepted"]++;
       if (!ok && !faulted) { out.ctr["config_rejected_by_initialize"]++; if (getenv("BXSIM_DIAG")) out.ctr["rejected: " + I.cfg.key() + " " + err.substr(0, 80)]++; }
+      (void)init_over_budget; (void)init_draws;
+      r.begin_op(1000000); // should the library keep drawing from this object after initialize(): a source like any other
     } else if (op.k == "reinit") {
       if (!I.gen || !I.inited) { out.ctr["ops_skipped"]++; continue; }
       I.gen->reset();
       I.inited = false;
       try {
         apply_cfg(*I.gen, I.cfg, user_op);
-        SimRandom r(init_key(op.arg(1)));
+        I.init_rng.reset(new SimRandom(init_key(op.arg(1))));
+        SimRandom & r = *I.init_rng;
         r.begin_op(INIT_BUDGET);
         I.gen->initialize(r);
+        r.begin_op(1000000);
         I.inited = true;
       } catch (std::exception & e) {
         if (check07)
